@@ -576,6 +576,8 @@ def check_dict(case, ctx):
                 return lambda: d.__delitem__(k(op[1]))
             if name == "pop":
                 return (lambda: d.pop(k(op[1]))) if not op[2] else (lambda: d.pop(k(op[1]), "dflt"))
+            if name == "pop_member_default":  # the default is itself a member object (possibly the one stored under the key)
+                return lambda: d.pop(k(op[1]), it(op[2]))
             if name == "popitem":
                 return lambda: d.popitem()
             if name == "setdefault":
@@ -658,12 +660,15 @@ def check_dict(case, ctx):
 def _dict_programs(draw):
     ops = []
     for _ in range(draw(st.integers(1, 25))):
-        name = draw(st.sampled_from(["setitem", "delitem", "pop", "popitem", "setdefault", "update_dict", "update_pairs", "update_kw", "clear", "get", "getitem",
+        name = draw(st.sampled_from(["setitem", "delitem", "pop", "pop_member_default", "popitem", "setdefault", "update_dict", "update_pairs", "update_kw", "clear", "get", "getitem",
                                      "contains", "keys", "items", "len", "copy", "or", "replace", "set_method", "remove_method"]))
         if name in ("setitem", "delitem", "setdefault", "get", "getitem", "contains", "set_method", "remove_method"):
             ops.append([name, draw(_item)])
         elif name == "pop":
             ops.append([name, draw(_item), draw(st.booleans())])
+        elif name == "pop_member_default":
+            i = draw(_item)
+            ops.append([name, i, draw(st.one_of(st.just(i), _item))])
         elif name in ("update_dict", "update_pairs", "update_kw", "or", "replace"):
             ops.append([name, draw(st.lists(_item, max_size=4))])
         else:
